@@ -29,6 +29,10 @@ def specs_index(tier):
          (SI_, "unit_check_number_perturbations", {"timeout_ms": t}), (SI_, "unit_contains_pop", {"timeout_ms": t}),
          (SI_, "unit_sentinels", {"timeout_ms": t})]
     s += [(SI_, "unit_getitem", {"nfin": f, "ninf": i, "timeout_ms": t}) for f, i in getitem_grid(tier)]
+    views = [(("int",), 1), (("npint", "int"), 2), (("slice",), 1), (("list", "int"), 1), (("list", "list"), 2), (("int", "slice"), 1), (("npint", "list"), 1)]
+    if tier == "thorough":
+        views += [(("int", "int", "int"), 1), (("slice", "list", "int"), 2), (("list",), 3), (("npint", "npint"), 1), (("slice", "slice"), 1)]
+    s += [(SI_, "unit_getitem_view", {"kinds": k, "ninf": i, "timeout_ms": t}) for k, i in views]
     return s
 
 
